@@ -29,6 +29,14 @@ mod gvar;
 mod hvar;
 #[path = "c17/locax.rs"]
 mod locax;
+#[path = "c17/outline.rs"]
+mod outline;
+#[path = "c17/postx.rs"]
+mod postx;
+#[path = "c17/colrx.rs"]
+mod colrx;
+#[path = "c17/layoutx.rs"]
+mod layoutx;
 
 const F_NO_HINTING: u16 = 0x0001;
 const F_RETAIN_GIDS: u16 = 0x0002;
@@ -1597,7 +1605,47 @@ fn run_font(s: &mut Session, r: &mut Rng, label: String, data: &[u8], nreq: usiz
     subset_everything(s, &fc, *r.pick(&[0u16, F_NOTDEF_OUTLINE, F_RETAIN_GIDS | F_NOTDEF_OUTLINE, F_NO_HINTING]));
 }
 
+/// `C17_ONLY=<part>[,<part>…]` (development aid) restricts the run to the named parts:
+/// core locax cmap hvar gvar outline post colr layout.  Unset = everything (what `./check` does).
+fn part_enabled(name: &str) -> bool {
+    match std::env::var("C17_ONLY") {
+        Ok(v) if !v.is_empty() => v.split(',').any(|p| p == name),
+        _ => true,
+    }
+}
+
 fn run(cfg: &Config, s: &mut Session) {
+    if part_enabled("core") {
+        run_core(cfg, s);
+    }
+    // table subsetters beyond the glyph-level core (own RNG streams: independent of the sections above)
+    if part_enabled("locax") {
+        locax::run(cfg, s, &mut Rng::new(cfg.seed ^ 0x10CA));
+    }
+    if part_enabled("cmap") {
+        cmapx::run(cfg, s, &mut Rng::new(cfg.seed ^ 0xC3A9));
+    }
+    if part_enabled("hvar") {
+        hvar::run(cfg, s, &mut Rng::new(cfg.seed ^ 0x48564152));
+    }
+    if part_enabled("gvar") {
+        gvar::run(cfg, s, &mut Rng::new(cfg.seed ^ 0x67766172));
+    }
+    if part_enabled("outline") {
+        outline::run(cfg, s, &mut Rng::new(cfg.seed ^ 0x6F75746C));
+    }
+    if part_enabled("post") {
+        postx::run(cfg, s, &mut Rng::new(cfg.seed ^ 0x706F7374));
+    }
+    if part_enabled("colr") {
+        colrx::run(cfg, s, &mut Rng::new(cfg.seed ^ 0x434F4C52));
+    }
+    if part_enabled("layout") {
+        layoutx::run(cfg, s, &mut Rng::new(cfg.seed ^ 0x4C41594F));
+    }
+}
+
+fn run_core(cfg: &Config, s: &mut Session) {
     let mut r = Rng::new(cfg.seed);
     let th = cfg.thorough();
 
@@ -1719,11 +1767,6 @@ fn run(cfg: &Config, s: &mut Session) {
         run_font(s, &mut r, label, &data, if th { 100 } else { 6 }, false);
     }
 
-    // 6. table subsetters beyond the glyph-level core (own RNG streams: independent of the sections above)
-    locax::run(cfg, s, &mut Rng::new(cfg.seed ^ 0x10CA));
-    cmapx::run(cfg, s, &mut Rng::new(cfg.seed ^ 0xC3A9));
-    hvar::run(cfg, s, &mut Rng::new(cfg.seed ^ 0x48564152));
-    gvar::run(cfg, s, &mut Rng::new(cfg.seed ^ 0x67766172));
 }
 
 fn run_guarded(cfg: &Config, s: &mut Session) {
